@@ -125,7 +125,7 @@ func onlyTwins(d []string) []string {
 }
 
 var paths = []string{"Find", "FindInline", "First", "Last", "Take", "Count", "Pluck", "Scan", "Rows", "FindInBatches", "CountThenFind", "CountThenPluck",
-	"Update", "Updates", "UpdateColumn", "Delete", "UnscopedFind", "UnscopedCount", "UnscopedDelete", "UnscopedUpdate"}
+	"Update", "Updates", "UpdateColumn", "Delete", "UnscopedFind", "UnscopedCount", "UnscopedDelete", "UnscopedUpdate", "UnscopedBatchesNested"}
 
 type chain struct {
 	steps []pred.GroupStep
@@ -367,6 +367,41 @@ func runChain(c *core.Ctx, cc chain, table []pred.Row) (problems []string, nontr
 			}
 			checkRead(ids, res.Error, !hasOr)
 		}
+	case "UnscopedBatchesNested":
+		// statements issued through the handle a callback receives belong to an Unscoped operation, but
+		// they did not ask for Unscoped themselves (and PropagateUnscoped is off): they see live rows only
+		var out []SRow
+		bs := c.R.Range(1, 4)
+		bound := len(table)*2/bs + 3
+		batches := 0
+		errBound := errors.New("batch bound exceeded")
+		var nestedProblems []string
+		res := build(cc, root.Unscoped()).FindInBatches(&out, bs, func(tx *gorm.DB, batch int) error {
+			batches++
+			if batches > bound {
+				return errBound
+			}
+			var n int64
+			if err := tx.Model(&SRow{}).Count(&n).Error; err != nil {
+				return err
+			}
+			if n != int64(len(table)) && len(nestedProblems) < 3 {
+				nestedProblems = append(nestedProblems, fmt.Sprintf("a Count issued without Unscoped inside the batch callback of an Unscoped FindInBatches saw %d rows, live rows: %d", n, len(table)))
+			}
+			var ids []int64
+			if err := tx.Model(&SRow{}).Order("id").Pluck("id", &ids).Error; err != nil {
+				return err
+			}
+			if tw := hasTwin(ids); len(tw) > 0 && len(nestedProblems) < 3 {
+				nestedProblems = append(nestedProblems, fmt.Sprintf("a Pluck issued without Unscoped inside the batch callback returned soft-deleted ids %v", tw))
+			}
+			return nil
+		})
+		if res.Error != nil && !errors.Is(res.Error, errBound) {
+			add("error: %v", res.Error)
+		}
+		problems = append(problems, nestedProblems...)
+		nontrivial = batches > 0
 	case "Update", "Updates", "UpdateColumn":
 		mutated = true
 		var res *gorm.DB
